@@ -136,6 +136,26 @@ def module_consts(module) -> dict:
     return env
 
 
+def slot_walks(sched) -> list:
+    """The loops of TaskScenario.schedule that walk the slots: `while self.scheduleSlot():`, or `while True:` whose body calls
+    scheduleSlot(), keeps the answer in a local and leaves with `if not <answer>: break`."""
+    out = []
+    for w in own_nodes(sched):
+        if not isinstance(w, ast.While):
+            continue
+        if "scheduleSlot" in norm(w.test):
+            out.append(w)
+            continue
+        if isinstance(w.test, ast.Constant) and w.test.value is True:
+            answers = {t.id for st in w.body if isinstance(st, (ast.Assign, ast.AnnAssign)) and st.value is not None and "scheduleSlot" in norm(st.value)
+                       for t in (st.targets if isinstance(st, ast.Assign) else [st.target]) if isinstance(t, ast.Name)}
+            leaves = [st for st in w.body if isinstance(st, ast.If) and isinstance(st.test, ast.UnaryOp) and isinstance(st.test.op, ast.Not)
+                      and isinstance(st.test.operand, ast.Name) and st.test.operand.id in answers and any(isinstance(b, ast.Break) for b in st.body)]
+            if answers and leaves:
+                out.append(w)
+    return out
+
+
 def stmt_of(node: ast.AST) -> ast.AST:
     p = node
     while p is not None and not isinstance(p, ast.stmt):
